@@ -110,7 +110,9 @@ Step ==
        [] x.e = "STOP" -> acc' = [acc EXCEPT !.stopped = TRUE] /\ UNCHANGED mon
        [] x.e = "CTRLC" -> acc' = [acc EXCEPT !.ctrlc = TRUE] /\ UNCHANGED mon
        [] x.e = "FAULT" -> acc' = [acc EXCEPT !.faults = @ \cup {<<x.ph, x.op>>},
-                                              !.efaults = IF x.exc # "AssertionError" /\ x.ph \in {2, 3, 4} /\ x.op # 0 THEN @ \cup {<<x.ph, x.op>>} ELSE @]
+                                              !.efaults = IF x.exc # "AssertionError" /\ x.ph \in {2, 3, 4} /\ x.op # 0 /\ x.site # "unit.worker.case"
+                                                          THEN @ \cup {<<x.ph, x.op>>} ELSE @]      \* (the case hook sits outside the test function's own try block:
+                                                                                                     \*  an exception there is the harness', not a place where the code can raise)
                            /\ UNCHANGED mon
        [] x.e = "CRASH" -> acc' = [acc EXCEPT !.crashed = TRUE] /\ UNCHANGED mon
        [] x.e = "HANG" -> acc' = [acc EXCEPT !.hung = TRUE] /\ UNCHANGED mon
